@@ -104,7 +104,13 @@ func (s *expiry) persistedState() *vlpersistence.SessionDelays {
 	}
 
 	if s.will != nil {
-		exp.Will, _ = mqttp.Encode(s.will)
+		// stored the way it came in, inside a CONNECT packet: Will Delay Interval is not a property
+		// of PUBLISH, a will encoded as PUBLISH cannot be decoded again
+		c := mqttp.NewConnect(mqttp.ProtocolV50)
+		_ = c.SetClientID([]byte(s.id))
+		if err := c.SetWill(s.will); err == nil {
+			exp.Will, _ = mqttp.Encode(c)
+		}
 	}
 
 	if s.total != nil {
